@@ -531,3 +531,79 @@ Proof.
   eexists (mkR 0 2 [1] 1 [2]), (mkS 20 2000 2), (mkS 20 2001 2).
   vm_compute. repeat split; auto.
 Qed.
+
+(* ================================================================ the low watermark never goes back *)
+
+Definition lw (st : state) : Z := low_watermark (st_last st) (st_open st) (st_readers st).
+
+Lemma first_open_filter_mono f last (open : list appender) :
+  StronglySorted Z.lt (ids open) -> (forall id, In id (ids open) -> 1 <= id <= last) ->
+  first_open last open <= first_open last (filter f open).
+Proof.
+  intros Hs Hr. destruct (filter f open) as [|x xs] eqn:Efl.
+  - simpl. apply first_open_le_last. exact Hr.
+  - simpl. apply first_open_le; auto. apply (ids_filter_in f). rewrite Efl. left. reflexivity.
+Qed.
+
+Lemma low_watermark_readers last open readers rd0 rest :
+  rev readers = rd0 :: rest -> low_watermark last open readers = rd_low rd0.
+Proof. unfold low_watermark. intros ->. reflexivity. Qed.
+
+Lemma low_watermark_noreaders last open : low_watermark last open [] = first_open last open.
+Proof. reflexivity. Qed.
+
+Lemma step_lw_mono st e st' : Inv st -> step st e = ROk st' -> lw st <= lw st'.
+Proof.
+  intros I. destruct I as [Hlast Hsorted Hrange Hpart Hclosed Hreaders Hlows Hbounds Hseries].
+  unfold lw.
+  destruct e as [|a sref t v cut|a sref|a|key|key|sref]; cbn [step]; intros E.
+  - injection E as <-. cbn [st_last st_open st_readers].
+    destruct (rev (st_readers st)) as [|rd0 rest] eqn:Er.
+    + apply rev_eq_nil in Er. rewrite Er, !low_watermark_noreaders.
+      apply first_open_snoc_mono; cbn [a_id]; lia.
+    + rewrite !(low_watermark_readers _ _ _ _ _ Er). lia.
+  - destruct (find_app a (st_open st)); [|discriminate]. destruct (ser_apply _ _ _ _ _ _); [|discriminate].
+    injection E as <-. cbn [st_last st_open st_readers]. lia.
+  - destruct (find_app a (st_open st)); [|discriminate]. destruct (ser_cleanup _ _); [|discriminate].
+    injection E as <-. cbn [st_last st_open st_readers]. lia.
+  - destruct (find_app a (st_open st)); [|discriminate]. injection E as <-. cbn [st_last st_open st_readers].
+    destruct (rev (st_readers st)) as [|rd0 rest] eqn:Er.
+    + apply rev_eq_nil in Er. rewrite Er, !low_watermark_noreaders. apply first_open_filter_mono; auto.
+    + rewrite !(low_watermark_readers _ _ _ _ _ Er). lia.
+  - destruct (existsb _ _); [discriminate|]. injection E as <-. cbn [st_last st_open st_readers].
+    destruct (rev (st_readers st)) as [|rd0 rest] eqn:Er.
+    + apply rev_eq_nil in Er. rewrite Er, low_watermark_noreaders.
+      rewrite (low_watermark_readers _ _ [_] _ [] eq_refl). cbn [rd_low]. lia.
+    + rewrite (low_watermark_readers _ _ _ _ _ Er).
+      rewrite (low_watermark_readers _ _ (_ :: st_readers st) rd0 (rest ++ [mkR key (st_last st) (map a_id (st_open st)) (first_open (st_last st) (st_open st)) (st_closed st)])).
+      * lia.
+      * cbn [rev]. rewrite Er. reflexivity.
+  - destruct (existsb _ _); [|discriminate]. injection E as <-. cbn [st_last st_open st_readers].
+    set (f := fun rd : reader => negb (rd_key rd =? key)).
+    destruct (rev (st_readers st)) as [|rd0 rest] eqn:Er.
+    + apply rev_eq_nil in Er. rewrite Er. simpl. lia.
+    + rewrite (low_watermark_readers _ _ _ _ _ Er).
+      destruct (lows_desc_oldest _ _ _ Hlows Er) as [Hin0 Hmin].
+      destruct (rev (filter f (st_readers st))) as [|rd1 rest1] eqn:Er1.
+      * apply rev_eq_nil in Er1. rewrite Er1, low_watermark_noreaders.
+        destruct (Hreaders rd0 Hin0) as (_ & _ & _ & R4). exact R4.
+      * rewrite (low_watermark_readers _ _ _ _ _ Er1). apply Hmin.
+        apply rev_eq_cons in Er1.
+        assert (Hin1 : In rd1 (filter f (st_readers st))) by (rewrite Er1; apply in_or_app; right; left; reflexivity).
+        apply filter_In in Hin1. tauto.
+  - injection E as <-. cbn [st_last st_open st_readers]. lia.
+Qed.
+
+(* isolation.lowWatermark() is non-decreasing along every valid trace *)
+Lemma watermark_monotone tr1 : forall tr2 st1 st2,
+  run init tr1 = ROk st1 -> run st1 tr2 = ROk st2 -> lw st1 <= lw st2.
+Proof.
+  intros tr2. revert tr1. induction tr2 as [|e tr2 IH]; intros tr1 st1 st2 H1 H2; cbn [run] in H2.
+  - injection H2 as <-. lia.
+  - destruct (step st1 e) as [sm| |] eqn:Es; try discriminate.
+    pose proof (reachable_inv tr1 st1 H1) as I.
+    pose proof (step_lw_mono st1 e sm I Es).
+    assert (Hm : run init (tr1 ++ [e]) = ROk sm).
+    { rewrite (run_app tr1 init [e] st1 H1). cbn [run]. rewrite Es. reflexivity. }
+    specialize (IH (tr1 ++ [e]) sm st2 Hm H2). lia.
+Qed.
